@@ -222,6 +222,10 @@ pub enum Event {
         input_entries: Vec<(u64, Vec<Entry>)>,
         /// entries of every output table
         output_entries: Vec<(u64, Vec<Entry>)>,
+        /// the answers of `should_stop_before_key`, one per call, in the order of the calls
+        stop_answers: Vec<bool>,
+        /// numbers of the output tables that were closed because they reached `max_file_size`
+        closed_by_size: Vec<u64>,
     },
     /// a file was removed by `remove_obsolete_files`
     Delete { path: String },
